@@ -27,14 +27,14 @@ KINDS = {
                             "script": [("c", [(0, 25)]), ("s", [(0, 35)])]}),
 }
 RELATIONS = ["different_hosts", "same_hosts_diff_cport", "same_client_two_servers", "same_server_443_44330", "v4_v6", "crossed_hosts"]
-CID_RELATIONS = ["distinct", "both_clients_zero", "server_cid_prefix", "client_cid_prefix", "both_zero_zero"]
+CID_RELATIONS = ["distinct", "both_clients_zero", "server_cid_prefix", "client_cid_prefix", "both_zero_zero", "short_id_vs_zero_length"]
 
 
 def describe(tier):
     q = tier == "quick"
     return {
         "rule": "all unordered pairs (incl. same kind) of {TLS1.2, TLS1.3, TLS1.0-CBC, QUIC-GCM, QUIC-ChaCha, QUIC with the ClientHello split over two reordered Initials, SSL3-RC4, QUIC with large packet numbers} x 6 endpoint "
-                "relations (incl. crossed hosts) (x 5 CID relations for QUIC pairs); every order-preserving merge with <= "
+                "relations (incl. crossed hosts) (x 6 connection-ID relations for QUIC pairs); every order-preserving merge with <= "
                 + ("3 context switches" if q else "5 context switches, and ALL merges for the pairs of the two shortest flows") +
                 "; triples and one 4-set with unrelated traffic (DNS-like UDP, HTTP on 80, ARP) with <= "
                 + ("1" if q else "2") + " switch(es) per pair of neighbours; key-log line permutations on one schedule "
@@ -91,6 +91,18 @@ def make_flows(ka, kb, rel, cidrel, seed):
             conn = scen.quic_conn(scn, seed, key=("c04", idx))
             pk = scen.quic_packets(conn, conn_id=idx)
         specs.append(scen.Flow(kind, conn, ends, idx, pk))
+    if cidrel == "short_id_vs_zero_length" and all(f.kind == "quic" for f in specs):
+        # connection 1's client uses a zero-length ID; connection 0's client uses the ONE-byte ID that equals the first
+        # protected byte of one of connection 1's server->client 1-RTT packets (IDs are chosen freely, so this is legal)
+        kind1, scn1 = KINDS[kb]
+        scn1 = dict(scn1, ccid_len=0)
+        c1 = scen.quic_conn(scn1, seed, key=("c04", 1, "z"))
+        tgt = [g for g in c1.dgrams if g.dir == "s" and g.stream and not g.data[0] & 0x80]
+        x = bytes([tgt[-1].data[1]])
+        kind0, scn0 = KINDS[ka]
+        c0 = scen.quic_conn(dict(scn0, ccid_bytes=x), seed, key=("c04", 0, "z"))
+        specs = [scen.Flow("quic", c0, specs[0].ends, 0, scen.quic_packets(c0, conn_id=0)),
+                 scen.Flow("quic", c1, specs[1].ends, 1, scen.quic_packets(c1, conn_id=1))]
     return specs
 
 
